@@ -117,6 +117,64 @@ def write_producers(chk, prog, c):
                  detail="`%s` calls Write::assume without holding a &Write on the container or issuing a barrier" % e.caller,
                  loc="%s:%s" % (e.file, e.line))
     chk.floor("assume-call-sites[%s]" % c, n, 3)
+    projection_steps(chk, prog, c)
+
+
+# what a safe projection &Write<A> -> &Write<B> may go through besides pattern matching: the Write wrapper's own
+# Deref, a Deref / Index step covered by the unsafe marker trait for that very type, and combinators that only
+# re-wrap references (they cannot leave the storage owned by A)
+PROJECTION_NEUTRAL = {
+    "<barrier::Write as core::ops::deref::Deref>::deref", "barrier::Write::assume",
+    "core::option::Option::as_ref", "core::option::Option::map", "core::result::Result::as_ref", "core::result::Result::map",
+    "core::result::Result::map_err", "core::option::Option::ok_or", "core::option::Option::unwrap_unchecked",
+}
+CLOSURE_CALLS = ("core::ops::function::FnOnce::call_once", "core::ops::function::FnMut::call_mut", "core::ops::function::Fn::call")
+
+
+def projection_steps(chk, prog, c):
+    """R13.9: a function that turns a `&Write<A>` into a `&Write<B>` (it receives a Write and calls Write::assume without
+    issuing a barrier) may reach B only through steps that stay inside storage exclusively owned by A. A `Deref` or
+    `Index` step is allowed only under the marker bound `X: DerefWrite` / `X: IndexWrite<I>` for the very type it is
+    applied to; std helpers that dereference (`Option::as_deref`, `AsRef`, `Borrow` ...) need the same bound and do not
+    have it (seed C13-c: `as_deref_write` with `T: Deref`)."""
+    n = 0
+    seen = set()
+    for e in prog.callers_of("barrier::Write::assume"):
+        base = prog.fn_of_closure(e.caller)
+        if base in seen:
+            continue
+        seen.add(base)
+        fs = prog.fn_n.get(base) or []
+        for f in fs:
+            ins = f.get("inputs") or []
+            if f.get("unsafe") or not (ins and _mentions_write(prog, ins[0]["ty"])):
+                continue
+            preds = {p_["s"].replace(" ", "") for p_ in f.get("predicates", [])}
+            bad = []
+            fns = [base] + sorted(k for k in prog.seed_n if k.startswith(base + "::{closure"))
+            for fn in fns:
+                for x in prog.calls_from(fn):
+                    if x.kind == "drop":
+                        continue
+                    d = x.declared or x.callee or "<indirect>"
+                    cal = x.callee or d
+                    if cal in PROJECTION_NEUTRAL or d in PROJECTION_NEUTRAL or d in CLOSURE_CALLS or cal.startswith(base + "::{closure"):
+                        continue
+                    gargs = [prog.ty_s(a["ty"]).replace(" ", "") for a in x.term["f"].get("args", []) if "ty" in a]
+                    if d == "core::ops::deref::Deref::deref" and gargs and ("%s:barrier::DerefWrite" % gargs[0]) in preds:
+                        continue
+                    if d == "core::ops::index::Index::index" and len(gargs) >= 2 and ("%s:barrier::IndexWrite<%s>" % (gargs[0], gargs[1])) in preds:
+                        continue
+                    if x.term.get("t") is None or cal.startswith(("core::panicking", "core::fmt")):
+                        continue
+                    bad.append("%s%s" % (d, ("::<%s>" % ", ".join(gargs)) if gargs else ""))
+            n += 1
+            chk.inst("R13.9-projection-steps", "%s[%s]" % (f["path"], c), not bad,
+                     detail="`%s` projects a &Write through %s, a step that is not covered by a write-projection marker bound "
+                            "(DerefWrite / IndexWrite for the very type it is applied to): the projected &Write can point into "
+                            "storage that another, unbarriered object owns or shares" % (base, sorted(set(bad))[:3]),
+                     sample={"projection": f["path"], "where": sorted(preds)[:6]})
+    chk.floor("write-projections[%s]" % c, n, 3)
 
 
 def _static_on_param(prog, im):
